@@ -3,6 +3,7 @@ C03 — Consume is a gap-free, duplicate-free cursor over the live messages.
 Property theorems only (lemmas live in Klev/Proofs).
 -/
 import Klev.Proofs.IndexSearch
+import Klev.Proofs.SearchTie
 import Klev.Proofs.SegSearch
 import Klev.Proofs.ConsumeOK
 import Klev.Proofs.ReadInv
@@ -55,6 +56,15 @@ example : Index.consume [⟨1, 8, 0, 0⟩, ⟨3, 50, 0, 0⟩, ⟨5, 90, 0, 0⟩,
   decide
 example : SegSearch.consume [0, 10, 20, 30] 15 = .ok 1 := by decide
 
+/-- **Regenerated tie (T4).** The search loops the theorems above are about *are* the loops of the
+current source: `Klev/Gen/Search.lean` is translated statement by statement from
+`pkg/index/offset.go` and `pkg/segment/index.go` on every run, and the translation equals the
+model for every input. -/
+theorem search_tie_consume (items : List Item) (bases : List Int) (off : Int) :
+    Gen.Search.indexConsume items off = Index.consume items off ∧
+    Gen.Search.segConsume bases off = SegSearch.consume bases off :=
+  ⟨Klev.indexConsume_tie items off, Klev.segConsume_tie bases off⟩
+
 end Klev.C03
 
 #print axioms Klev.C03.consume_ok
@@ -62,3 +72,4 @@ end Klev.C03
 #print axioms Klev.C03.index_consume_spec
 #print axioms Klev.C03.segment_consume_spec
 #print axioms Klev.C03.segment_consume_first
+#print axioms Klev.C03.search_tie_consume
